@@ -421,6 +421,30 @@ def build_random(seed, size):
         ports.append(q)
         foreign.append(["\\ext_cell", [["\\" + n, _wfc(v)] for n, v in params.items()], [["\\black_box", _wfc(1)]],
                         [["\\I", "i", len(a), []], ["\\J", "i", len(a) + 1, []], ["\\Q", "o", 3, []], ["\\P", "io", 1, []]]])
+    if rng.random() < 0.5:
+        # a pin group: one multi-bit IOPort whose bits are buffered one by one or in slices, with
+        # different directions, by IO buffers placed in one or several modules of the tree
+        from amaranth.hdl import IOBufferInstance
+        w = rng.randint(2, 4)
+        grp = IOPort(w, name=rng.choice(["spi", "pins", "a"]))
+        lo = 0
+        while lo < w:
+            n = rng.randint(1, min(2, w - lo))
+            if True:    # every bit is buffered: an unbuffered bit of an output group has, by design, no driver at all
+                k = rng.randrange(n_mods) if rng.random() < 0.3 else n_mods - 1
+                d = rng.choice(["i", "o", "io", "t"])
+                kw = {}
+                if d in ("i", "io"):
+                    kw["i"] = pin_i = Signal(n, name=rng.choice(["pin_i", "a"]))
+                    ports.append(pin_i)
+                if d in ("o", "io", "t"):
+                    kw["o"] = pin_o = Signal(n, name=rng.choice(["pin_o", "a"]))
+                    ports.append(pin_o)
+                if d in ("io", "t"):
+                    kw["oe"] = pin_oe = Signal(1, name="pin_oe")
+                    ports.append(pin_oe)
+                mods[k].submodules += IOBufferInstance(grp[lo:lo + n], **kw)
+            lo += n
     return mods[0], ports, foreign
 
 
